@@ -53,6 +53,78 @@ def call_np(interp, name, args, kwargs, lineno):
         return Box(A.hstack(ctx, list(pieces), origin=lineno))
     if name == 'tile':
         return Box(A.tile(ctx, args[0], args[1], origin=lineno))
+    if name == 'concatenate':
+        pieces = args[0]
+        ax = kwargs.get('axis', args[1] if len(args) > 1 else ZERO)
+        if not isinstance(pieces, (list, tuple)):
+            raise AnalysisError("np.concatenate of a non-sequence")
+        arrs = [snap(p_) for p_ in pieces]
+        if all(a_.ndim == 1 for a_ in arrs) and (ax is None or (isinstance(ax, Rat) and ax.is_zero())):
+            return Box(A.hstack(ctx, list(pieces), origin=lineno))
+        if all(a_.ndim >= 2 for a_ in arrs) and isinstance(ax, Rat) and ax.is_const() and ax.const_value() == 1:
+            return Box(A.hstack(ctx, list(pieces), origin=lineno))
+        raise AnalysisError("np.concatenate: only 1-D pieces (axis 0) or axis=1 of n-D pieces are modelled")
+    if name == 'append' and len(args) == 2 and not kwargs:
+        return Box(A.flat_concat(ctx, [A.ravel_arr(ctx, snap(args[0])), A.ravel_arr(ctx, snap(args[1]))], lineno))
+    if name in ('zeros_like', 'ones_like', 'empty_like', 'full_like', 'full'):
+        if name == 'full':
+            shape = A.to_shape(ctx, args[0])
+            v = R(args[1])
+        else:
+            shape = snap(args[0]).shape
+            v = ONE if name == 'ones_like' else (R(args[1]) if name == 'full_like' else ZERO)
+        b = Box(A.const_arr(shape, v, 'real'))
+        b.cur.origin = lineno
+        b.base_zero = v.is_zero()
+        return b
+    if name in ('add', 'subtract', 'multiply', 'divide', 'true_divide', 'power') and len(args) == 2 and not kwargs:
+        op = {'add': ast.Add, 'subtract': ast.Sub, 'multiply': ast.Mult, 'divide': ast.Div, 'true_divide': ast.Div, 'power': ast.Pow}[name]()
+        return interp.binop(op, args[0], args[1], lineno)
+    if name == 'negative' and len(args) == 1:
+        return interp.binop(ast.Mult(), Rat.const(-1), args[0], lineno)
+    if name == 'square' and len(args) == 1:
+        return interp.binop(ast.Mult(), args[0], args[0], lineno)
+    if name == 'reciprocal' and len(args) == 1:
+        return interp.binop(ast.Div(), ONE, args[0], lineno)
+    if name == 'ravel' and len(args) == 1 and not kwargs:
+        return Box(A.ravel_arr(ctx, snap(args[0])))
+    if name == 'transpose' and len(args) == 1 and not kwargs:
+        return Box(A.transpose(ctx, snap(args[0])))
+    if name == 'atleast_1d' and len(args) == 1:
+        a = snap(args[0])
+        return args[0] if a.ndim >= 1 else Box(A.reshape(ctx, a, (ONE,), origin=lineno))
+    if name == 'diff':
+        a = snap(args[0])
+        if a.ndim != 1 or len(args) > 1 or kwargs:
+            raise AnalysisError("np.diff: only the 1-D first difference is modelled")
+        hi = A.index_arr(ctx, a, (Sl(ONE, None),))
+        lo = A.index_arr(ctx, a, (Sl(None, R(-1)),))
+        return Box(A.elementwise(ctx, lambda x, y: x - y, [hi, lo], origin=lineno))
+    if name == 'pad':
+        a = snap(args[0])
+        width = args[1] if len(args) > 1 else kwargs.get('pad_width')
+        mode = str(kwargs.get('mode', args[2] if len(args) > 2 else 'constant'))
+        if a.ndim != 1 or not (isinstance(width, Rat) and width.is_const() and width.const_value() == 1):
+            raise AnalysisError("np.pad: only 1-D arrays padded by one element per side are modelled")
+        first = lambda k: A.index_arr(ctx, a, (Sl(R(k), R(k + 1)),))
+        last = lambda k: A.index_arr(ctx, a, (Sl(R(-k - 1), R(-k) if k else None),))
+        if mode == 'edge' or mode == 'symmetric':
+            l, r = first(0), last(0)
+        elif mode == 'reflect':
+            if a.shape[0].is_const() and a.shape[0].const_value() == 1:
+                l, r = first(0), last(0)        # numpy: a singleton axis is extended by its edge value (legacy behaviour)
+            else:
+                l, r = first(1), last(1)
+        elif mode == 'wrap':
+            l, r = last(0), first(0)
+        elif mode == 'constant':
+            cv = kwargs.get('constant_values', ZERO)
+            if not isinstance(cv, Rat):
+                raise AnalysisError("np.pad: constant_values must be a scalar")
+            l = r = A.const_arr((ONE,), cv)
+        else:
+            raise AnalysisError(f"np.pad mode {mode!r} is not modelled")
+        return Box(A.hstack(ctx, [l, a, r], origin=lineno))
     if name == 'reshape':
         order = kwargs.get('order', args[2] if len(args) > 2 else 'C')
         return Box(A.reshape(ctx, args[0], args[1], origin=lineno, order=str(order)))
